@@ -59,21 +59,28 @@ impl G {
     }
 }
 
-fn build(g: &G, ids: &[u32]) -> DepGraph<u32> {
+/// `mode` 0: every node is registered as a key before the edges are added (what the block resolver
+/// does). `mode` 1: only edges are added, so a node without outgoing edges that something depends on
+/// exists *only as a dependency target* (never a key of the map); nodes without any edge are still
+/// registered, otherwise they would not be part of the graph at all.
+fn build(g: &G, ids: &[u32], mode: u8) -> DepGraph<u32> {
     let mut d = DepGraph::new();
+    let edges = g.edges();
     for i in 0..g.n {
-        d.add(ids[i], []);
+        if mode == 0 || !edges.iter().any(|(a, b)| *a == i || *b == i) {
+            d.add(ids[i], []);
+        }
     }
-    for (i, j) in g.edges() {
+    for (i, j) in edges {
         d.add(ids[i], [ids[j]]);
     }
     d
 }
 
 /// Explore the release protocol exhaustively for one graph. Returns (states, transitions, problem).
-fn explore(g: &G, ids: &[u32], partial: bool) -> (u64, u64, Option<String>) {
+fn explore(g: &G, ids: &[u32], partial: bool, mode: u8) -> (u64, u64, Option<String>) {
     let comps = g.sccs();
-    let deps = build(g, ids);
+    let deps = build(g, ids, mode);
     let scc0 = Kosaraju::new(&deps).run();
     let idx_of = |id: u32| ids.iter().position(|x| *x == id);
     // expected offers for a released mask
@@ -222,7 +229,7 @@ impl Check for Graphs {
         format!("graphs on {} nodes with adjacency index {}..{} (first: edges {:?} = (dependent, dependency)), 3 node numberings, hash seeds 0..{}; release protocol explored exhaustively (every non-empty subset of offered groups, plus single-node partial releases)", n, a, a + c, g.edges(), self.seeds)
     }
     fn rule(&self) -> String {
-        format!("all directed graphs with self-loops on 1..4 nodes (2+16+512+65536), each under 3 node numberings and hash seeds 0..{} (fresh thread per seed under the getrandom interposer): Kosaraju::run, then the top()/release() state graph explored exhaustively — transitions = every non-empty subset of the currently offered groups, plus releasing a single node of a multi-node group; states deduplicated by released set with the offers re-compared on every revisit; invariant per state: offered groups = reference SCCs (transitive-closure brute force) whose outside dependencies are all released, minus released nodes; never stuck before everything is released; no panic; case = 256 graphs; non-trivial = graphs with >= 1 edge between distinct nodes", self.seeds)
+        format!("all directed graphs with self-loops on 1..4 nodes (2+16+512+65536), each under 3 node numberings, 2 construction modes (every node registered as a key first / edges only, so that leaves exist only as dependency targets) and hash seeds 0..{} (fresh thread per seed under the getrandom interposer): Kosaraju::run, then the top()/release() state graph explored exhaustively — transitions = every non-empty subset of the currently offered groups, plus releasing a single node of a multi-node group; states deduplicated by released set with the offers re-compared on every revisit; invariant per state: offered groups = reference SCCs (transitive-closure brute force) whose outside dependencies are all released, minus released nodes; never stuck before everything is released; no panic; case = 256 graphs; non-trivial = graphs with >= 1 edge between distinct nodes", self.seeds)
     }
     fn run(&mut self, i: usize) -> CaseResult {
         let (n, a, c) = self.chunks[i];
@@ -243,16 +250,19 @@ impl Check for Graphs {
                         nontrivial = true;
                     }
                     for (k, ids) in NUMBERINGS.iter().enumerate() {
-                        let r = crate::subject::guarded(|| explore(&g, &ids[..n], true));
-                        match r {
-                            | Ok((s, t, p)) => {
-                                states += s;
-                                transitions += t;
-                                if let Some(p) = p {
-                                    problems.push((idx, k, p));
+                        for mode in 0..2u8 {
+                            let r = crate::subject::guarded(|| explore(&g, &ids[..n], true, mode));
+                            let tag = if mode == 1 { " [leaves only as dependency targets]" } else { "" };
+                            match r {
+                                | Ok((s, t, p)) => {
+                                    states += s;
+                                    transitions += t;
+                                    if let Some(p) = p {
+                                        problems.push((idx, k, format!("{p}{tag}")));
+                                    }
                                 }
+                                | Err(p) => problems.push((idx, k, format!("panic {} at {}{tag}", p.msg, p.loc))),
                             }
-                            | Err(p) => problems.push((idx, k, format!("panic {} at {}", p.msg, p.loc))),
                         }
                     }
                 }
@@ -262,7 +272,7 @@ impl Check for Graphs {
                 | Ok((order, states, transitions, problems, nt)) => {
                     orders.insert(order);
                     nontrivial |= nt;
-                    result = result.count("states", states).count("transitions", transitions).count("traces", c * 3);
+                    result = result.count("states", states).count("transitions", transitions).count("traces", c * 6);
                     for (idx, k, p) in problems.into_iter().take(3) {
                         let g = G::from_index(n, idx);
                         let fp = if p.starts_with("panic") {
@@ -356,7 +366,7 @@ impl Check for Families {
         let mut result = CaseResult::ok("family").nontrivial(true).key(hash64(&name));
         for seed in 0..self.seeds {
             let g2 = g.clone();
-            let out = with_seed(seed + 77, move || crate::subject::guarded(|| explore(&g2, &NUMBERINGS[1][..g2.n], g2.n <= 6)));
+            let out = with_seed(seed + 77, move || crate::subject::guarded(|| explore(&g2, &NUMBERINGS[1][..g2.n], g2.n <= 6, (seed % 2) as u8)));
             match out {
                 | Ok(Ok((s, t, p))) => {
                     result = result.count("states", s).count("transitions", t).count("traces", 1);
